@@ -776,11 +776,16 @@ func (g *vfGW) apply(evFull string) {
 		}
 		g.fake(arg(1)).send(vfCtlRPC(&pb.ControlMessage{Iwant: []*pb.ControlIWant{{MessageIDs: ids}}}))
 	case "idw":
-		ids := []string{}
-		for _, m := range strings.Split(arg(2), "+") {
-			ids = append(ids, g.msgID(m))
+		// idw:P:m1+m2|m3 -- one RPC; "|" separates IDONTWANT entries of its control message
+		var entries []*pb.ControlIDontWant
+		for _, e := range strings.Split(arg(2), "|") {
+			ids := []string{}
+			for _, m := range strings.Split(e, "+") {
+				ids = append(ids, g.msgID(m))
+			}
+			entries = append(entries, &pb.ControlIDontWant{MessageIDs: ids})
 		}
-		g.fake(arg(1)).send(vfCtlRPC(&pb.ControlMessage{Idontwant: []*pb.ControlIDontWant{{MessageIDs: ids}}}))
+		g.fake(arg(1)).send(vfCtlRPC(&pb.ControlMessage{Idontwant: entries}))
 	case "join":
 		s, err := g.topic(arg(1)).Subscribe()
 		if err != nil {
